@@ -153,6 +153,9 @@ func renderPgn(bs *BookSpec) string {
 		}
 		// move text with decorations
 		var parts []string
+		// engine/clock annotations after every move, the comment broken over
+		// two lines (as written by servers that export wrapped move text)
+		clk := dec.Intn(6) == 0
 		for i, t := range toks {
 			if i%2 == 0 {
 				if dec.Intn(2) == 0 {
@@ -162,6 +165,10 @@ func renderPgn(bs *BookSpec) string {
 				}
 			} else {
 				parts = append(parts, t)
+			}
+			if clk {
+				parts = append(parts, fmt.Sprintf("{ [%%eval 0.%02d]\n[%%clk 0:0%d:%02d] }", dec.Intn(100), dec.Intn(10), dec.Intn(60)))
+				continue
 			}
 			switch dec.Intn(14) {
 			case 0:
